@@ -412,6 +412,18 @@ def reencode(schema: Schema, mi: MI, data: bytes, ops, rng, depth: int = 0, stat
             n = rng.choice([x for x in (9999, 19, 1000, 2**28 + 1, 2**29 - 2, 77) if x not in used])
             wt = rng.choice([VARINT, I64, LEN, I32])
             p = {VARINT: rng.choice([0, 1, 2**63]), I64: b"\x01" * 8, I32: b"\x02" * 4, LEN: rng.choice([b"", b"xyz", b"\x08\x01"])}[wt]
+            if rng.randrange(4) == 0:
+                # an unknown (proto2) GROUP: start marker, content, end marker - possibly holding a group of the SAME number
+                # (a recursive group) or of another one; one unknown field as a whole
+                inner = make_record(rng.choice([1, 2, 3]), VARINT, rng.choice([0, 300])).raw
+                depth = rng.choice([1, 2, 2, 3])
+                raw = inner
+                for lvl in range(depth):
+                    g = n if (lvl % 2 == 0 or rng.randrange(2)) else n + 1
+                    raw = tag(g, 3) + raw + (make_record(2, LEN, b"t").raw if lvl else b"") + tag(g, 4)
+                recs.insert(rng.randrange(0, len(recs) + 1), Record(n, 3, None, raw))
+                hit("unknown_group")
+                continue
             recs.insert(rng.randrange(0, len(recs) + 1), make_record(n, wt, p))
             hit("unknown")
     # 4. permutation preserving the relative order within one field number and within one oneof group
